@@ -242,6 +242,15 @@ claim('C15',
       'Calculators enumerated; symbolic member choice for one class at a time, symbolic flags for four classes at a time.',
       'DESIGN.md 3/C15')
 
+claim('C11',
+      'Bounded symbolic verification of the dipole part of the property: real Interstitial.siteDipoles / jumpDipoles (ProjectTensorBasis, '
+      'site and jump symmetric-tensor bases, group operations chosen at construction) run on ARBITRARY NON-SYMMETRIC symbolic dipoles; for '
+      'every site and jump the populated dipole equals g P g^T for EVERY operation g carrying the representative there, P = symmetrise + '
+      'average over the stabiliser of the representative site / transition (incl. reversing operations), decided by z3 (QF_LRA).',
+      'Does NOT decide the first two sentences (activation barrier = -dD/d beta, elastodiffusion = dD/d strain): a change confined to those '
+      'formulas is not detected. Crystals/networks enumerated. Two defects found and fixed (2-d C2 tensor basis, 2-d mirror eigenvectors).',
+      'DESIGN.md 3/C11')
+
 na('C01', 'exact oracle is an infinite-state pair Markov chain reached through Brillouin-zone quadrature, LAPACK and hyp1f1/expi; '
           'agreement only to integration accuracy: no algebraic statement a solver can decide (DESIGN 5)')
 na('C06', 'identities hold only for the true lattice Green function of the omega0 network (numerical k-space integration); '
